@@ -38,4 +38,22 @@ def watchdog (K : KaConsts) (T : Int) (now lastResp nextChallenge : Nat) : KaDec
     else .none
   else .none
 
+/-- what happens to the connection between two looks of the watchdog. `last_response` has one writer in the source
+    (supla_esp_on_remote_call_received, checked on every run): a received call stamps it, nothing else does - not a
+    new TCP connection, not a disconnect, not the device's own transmissions. -/
+inductive KaEv | tick | recv | connect | disconnect | sent
+  deriving Repr, DecidableEq
+
+structure KaClock where
+  now : Nat         -- uptime seconds
+  lastResp : Nat    -- devconn->last_response
+  deriving Repr, DecidableEq
+
+def kaStep (s : KaClock) : KaEv → KaClock
+  | .tick => { s with now := s.now + 1 }
+  | .recv => { s with lastResp := s.now }
+  | _ => s
+
+def kaRun (s : KaClock) (es : List KaEv) : KaClock := es.foldl kaStep s
+
 end SuplaVerif
